@@ -435,6 +435,11 @@ class OpaquePubKey(PubKey):  # pragma: no cover
     def __iter__(self):
         yield self.data
 
+    def __len__(self):
+        # the material is one block, not one of the MPI fields that PubKey.__len__ adds up; publen() (and so the
+        # fingerprint) has to cover all of it
+        return len(self.data)
+
     def __copy__(self):
         pk = super(OpaquePubKey, self).__copy__()
         pk.data = copy.copy(self.data)
@@ -1324,6 +1329,11 @@ class OpaquePrivKey(PrivKey, OpaquePubKey):  # pragma: no cover
 
     def __len__(self):
         return len(self.data)
+
+    def publen(self):
+        # where the public part of the block ends is known only to an implementation of the algorithm (unchanged:
+        # such a secret key cannot have a meaningful fingerprint; it must not hash the secret material)
+        return 0
 
     def __privkey__(self):
         return NotImplemented
